@@ -17,14 +17,17 @@ def runs(tier):
         ("G(5) x A2, double", [["--n", 5, "--alpha", "A2"]]),
         ("G(0..4) x A2, int", [["--n", n, "--alpha", "A2", "--wtype", "int"] for n in range(0, 5)]),
         ("G(0..4) x D, double", [["--n", n, "--alpha", "D"] for n in range(0, 5)]),
+        ("G(5) x A3, double", [["--n", 5, "--alpha", "A3"]]),
+        ("G(6) x U, double", [["--n", 6, "--alpha", "U"]]),
+        ("blob grammar K=3,T=2 x patterns U, M2, M3", [["--grammar", "blobs:3:2", "--alpha", a] for a in ("U", "M2", "M3")]),
+        ("dense families x U", [["--families", "K:6,K:7,wheel:6,prism:4,petersen,Kb:3:4,grid:3:4,cube:3", "--alpha", "U"]]),
     ]
     if tier == "quick":
         return q
     t = q + [
-        ("G(5) x A3, double", [["--n", 5, "--alpha", "A3"]]),
         ("G(5) x A3, int", [["--n", 5, "--alpha", "A3", "--wtype", "int"]]),
         ("G(5) x D, double", [["--n", 5, "--alpha", "D"]]),
-        ("G(6) x U, double", [["--n", 6, "--alpha", "U"]]),
+        ("blob grammar K=3,T=3 x patterns U, M2", [["--grammar", "blobs:3:3", "--alpha", a] for a in ("U", "M2")]),
         ("families x A2", [["--families", "wheel:5,wheel:6,prism:3,prism:4,Kb:3:3,cube:3,grid:3:3,petersen,Kb:2:5,grid:2:5", "--alpha", "A2"]]),
         ("G(6) x A2, double", [["--n", 6, "--alpha", "A2"]]),
         ("G(7) x U, double", [["--n", 7, "--alpha", "U"]]),
